@@ -50,6 +50,10 @@ def gen_world(rng, kinds, big=False):
     rx = core.Streams(f"cluster-extra/{W}/{N}/{w['seed']}/{kind}")("x")  # independent of the draws above: older plans keep their worlds
     if kind == "cb" and w["form"] == "persample" and not w.get("relabel") and rx.random() < 0.4:
         w["label_read_fails_at"] = sorted({rx.randint(1, max(1, w["N"])) for _ in range(rx.randint(1, 2))})
+    if w.get("relabel") and rx.random() < 0.5:
+        # the same process built a sampler on the ROOT dataset earlier (a preview / evaluation sampler): whatever that left on
+        # the root object must not reach the sampler built on the label-rewriting wrapper afterwards
+        w["relabel"]["sampler_on_root_first"] = rx.choice(["all", "rank0"])  # every process did, or only rank 0 (preview code)
     if kind == "weighted" and rx.random() < 0.15:
         w["multinomial_fails"] = True  # stands for a draw over more than 2**24 categories, which torch.multinomial refuses
     return w
@@ -151,7 +155,13 @@ class as_rank:
                 os.environ[k] = v
 
 
-def make_sampler(w, dataset, rank, W, implicit=False):
+def make_sampler(w, dataset, rank, W, implicit=False, is_ref=False):
+    first = (w.get("relabel") or {}).get("sampler_on_root_first")
+    if first and hasattr(dataset, "dataset") and (first in ("all", True) or (rank == 0 and not is_ref)):
+        try:
+            _make_sampler(w, dataset.dataset, dict(rank=0, world_size=1), dict(num_replicas=1, rank=0))
+        except Exception:
+            pass  # the root's own labels may not suit the sampler; only the attempt matters
     if implicit:
         # rank and world size come from the (simulated) process group, as in an ordinary DDP job
         rank_kw, dist_kw = {}, {}
@@ -188,7 +198,7 @@ def gen_plan(seed, kinds, big=False):
     rf = st("faults")
     faults = []
     for _ in range(rf.choice([0, 1, 2, 3])):
-        faults.append(dict(kind=rf.choice(["restart", "clobber", "clobber", "reiter", "peek", "prefetch_next", "ship"]), rank=rf.randrange(w["W"]),
+        faults.append(dict(kind=rf.choice(["restart", "clobber", "clobber", "reiter", "peek", "prefetch_next", "ship", "draw_fails"]), rank=rf.randrange(w["W"]),
                            pos=rf.randrange(len(epochs)), at=rf.randint(0, 6), which=rf.choice(["py", "np", "torch", "advance"]),
                            seed=rf.randint(0, 999)))
     return dict(world=w, epochs=epochs, faults=faults, sched_seed=st("sched").getrandbits(32), amb_seed=st("amb").getrandbits(31))
@@ -275,7 +285,7 @@ def _run_cluster(plan, out, w, W, ch, base_ds, procs, refp, ds, samplers, implic
             ref_ds = pickle_copy(base_ds)
             for attempt in range(4):
                 try:
-                    ref = make_sampler(w, ref_ds, 0, 1)
+                    ref = make_sampler(w, ref_ds, 0, 1, is_ref=True)
                     break
                 except Exception as e:
                     if not core.caused_by(e, InjectedReadError):
@@ -317,6 +327,42 @@ def _run_cluster(plan, out, w, W, ch, base_ds, procs, refp, ds, samplers, implic
         done = [False] * W
         faults = [f for f in plan["faults"] if f["pos"] == pos and f["rank"] < W]
         for f in faults:
+            if f["kind"] == "draw_fails" and not w.get("multinomial_fails"):
+                # a dependency of the epoch draw (torch.randperm / multinomial / repeat_interleave) fails once in this rank - out of
+                # memory, say; the rank sees the error and asks the same sampler object for the same epoch again
+                import itertools
+                import torch
+                r = f["rank"]
+                names = ["randperm", "multinomial", "repeat_interleave"]
+                real = {n_: getattr(torch, n_) for n_ in names}
+                state = {"armed": True}
+
+                def failing(n_):
+                    def fn(*a, **k):
+                        if state["armed"]:
+                            state["armed"] = False
+                            raise MemoryError(f"injected: torch.{n_} could not allocate")
+                        return real[n_](*a, **k)
+                    return fn
+
+                first = []
+                try:
+                    for n_ in names:
+                        setattr(torch, n_, failing(n_))
+                    with procs[r].on_cpu(), as_rank(r, W, implicit):
+                        try:
+                            it_ = iter(samplers[r])
+                            first = [next(it_)]
+                            its[r] = itertools.chain(first, it_)  # nothing failed (this sampler draws otherwise)
+                        except StopIteration:
+                            its[r] = iter(())
+                        except MemoryError:
+                            out.count("fault:epoch_draw_dependency_fails_once_then_retry")
+                            its[r] = iter(samplers[r])  # the retry: same object, same epoch
+                finally:
+                    for n_ in names:
+                        setattr(torch, n_, real[n_])
+        for f in faults:
             if f["kind"] == "peek":
                 # the rank looks at the first indices of the epoch (progress bar, sanity print ...) and then iterates for real:
                 # an abandoned iteration of the same object must not change the epoch's draw
@@ -334,7 +380,7 @@ def _run_cluster(plan, out, w, W, ch, base_ds, procs, refp, ds, samplers, implic
         while not all(done):
             r = ch.choose([x for x in range(W) if not done[x]])
             for fi, f in enumerate(faults):
-                if fi in fired or f["rank"] != r or f["kind"] in ("reiter", "peek") or len(streams[r]) < f["at"]:
+                if fi in fired or f["rank"] != r or f["kind"] in ("reiter", "peek", "draw_fails", "ship") or len(streams[r]) < f["at"]:
                     continue
                 fired.add(fi)
                 if f["kind"] == "prefetch_next":
